@@ -27,6 +27,7 @@ import (
 	"testing"
 	"time"
 
+	"github.com/cilium/ebpf"
 	"github.com/daeuniverse/dae/common/consts"
 	"github.com/daeuniverse/dae/common/netutils"
 	componentdns "github.com/daeuniverse/dae/component/dns"
@@ -137,6 +138,10 @@ type c10Op struct {
 	Prog  int        `json:"prog,omitempty"`    // reload: routing program of the new generation
 	Cfg   int        `json:"cfg,omitempty"`     // reload: cache config of the new generation
 	Flag  bool       `json:"flag,omitempty"`
+	// part "fault" only: write-fault window markers and the retry round after it (c10_fault_verif_test.go)
+	Mode string      `json:"fault_mode,omitempty"` // fault-on: how writes to domain_routing_map fail
+	Free int         `json:"free_slots,omitempty"` // fault-on, table-full: slots left in the table
+	Re   []c10Answer `json:"reresolve_with,omitempty"`
 	// reload-reuse: what the old generation still serves between CloneDnsCache and the cut-over
 	During []c10Op `json:"during,omitempty"`
 }
@@ -342,6 +347,8 @@ type c10Env struct {
 	hookOK  bool       // yield point dns-bpf-update-task present in the tree under test
 	hook2OK bool       // yield point dns-bpf-update-refresh present (comes with the liveness re-check)
 	hook3OK bool       // yield point drt-guard-passed present
+	// part "fault" only: a real kernel hash map is handed to the tracker (nil in part main: no syscall)
+	kmap *ebpf.Map
 }
 
 type c10World struct {
@@ -394,7 +401,8 @@ func c10FixedTtl(fixed bool) map[string]int {
 func (w *c10World) newGeneration(prog, cfg int, pendingCache map[string]*DnsCache) (*ControlPlane, *DnsController, *controlPlaneCore, context.CancelFunc, error) {
 	env := w.env
 	core := &controlPlaneCore{log: env.log, domainRouting: newDomainRoutingTracker()}
-	core.bpf.Store(&bpfObjects{}) // DomainRoutingMap == nil: syncOwner computes + reports batches, no syscall
+	// part main: DomainRoutingMap == nil: syncOwner computes + reports batches, no syscall
+	core.bpf.Store(&bpfObjects{bpfMaps: bpfMaps{DomainRoutingMap: env.kmap}})
 	ctx, cancel := context.WithCancel(context.Background())
 	cp := &ControlPlane{log: env.log, core: core, ctx: ctx, ready: make(chan struct{})}
 	cp.routingMatcher = env.progs[prog].matcher
@@ -977,6 +985,15 @@ func (w *c10World) holdWorker(delay int, afterLivenessCheck bool) {
 	}
 }
 
+// clearTable: what clearReloadDomainRoutingMap does to the table (shadow fold; in part "fault" the real map too).
+func (w *c10World) clearTable() error {
+	w.env.shadow.clear()
+	if w.env.kmap != nil {
+		return c10rbWipe(w.env.kmap)
+	}
+	return nil
+}
+
 // reload: CloneDnsCache of the old generation -> new core/tracker, new routing
 // program, new DnsController (production constructor + option closure) ->
 // domain_routing_map cleared (clearReloadDomainRoutingMap on the shared map;
@@ -998,7 +1015,9 @@ func (w *c10World) reload(op *c10Op) error {
 	if err != nil {
 		return err
 	}
-	w.env.shadow.clear()
+	if err := w.clearTable(); err != nil {
+		return err
+	}
 	w.holdWorker(op.Delay, op.Flag)
 	if w.gateLeft > 0 {
 		for _, e := range entries {
@@ -1028,7 +1047,7 @@ func (w *c10World) rollback() error {
 	if err := w.barrier(w.ctrl); err != nil {
 		return err
 	}
-	if err := w.core.domainRouting.clearAndForget(func() error { w.env.shadow.clear(); return nil }); err != nil {
+	if err := w.core.domainRouting.clearAndForget(w.clearTable); err != nil {
 		return err
 	}
 	w.cp.pendingDnsReloadCache = w.cp.CloneDnsCache()
@@ -1071,7 +1090,9 @@ func (w *c10World) reloadReuse(i int, op *c10Op) error {
 	if err := w.barrier(w.ctrl); err != nil {
 		return err
 	}
-	w.env.shadow.clear() // clearReloadDomainRoutingMap
+	if err := w.clearTable(); err != nil { // clearReloadDomainRoutingMap
+		return err
+	}
 	cp.replayDnsReloadCache()
 	if err := w.barrier(cp.dnsController); err != nil {
 		return err
@@ -1399,7 +1420,7 @@ func TestVerifC10(t *testing.T) {
 			"observed kernel batches is compared with the cache; distinct = (cache config, ordered set of <operation kind>:<effect> events on addresses shared by >=2 owners); "+
 			"non-trivial = history in which an address with >=2 owners lost one")
 	m.SetFloor(100)
-	m.Assume("domain_routing_map itself is not present (DomainRoutingMap == nil): the table is the fold of the batches syncOwner hands to BpfMapBatchUpdate/BpfMapBatchDelete (updates first, then deletes); a failing kernel batch call is not modelled",
+	m.Assume("domain_routing_map itself is not present (DomainRoutingMap == nil): the table is the fold of the batches syncOwner hands to BpfMapBatchUpdate/BpfMapBatchDelete (updates first, then deletes); failing kernel batch calls are driven by part fault (real map)",
 		"ControlPlane values carry only the fields dnsControllerOption()/replayDnsReloadCache/dnsUpstreamReadyCallback/ReuseDNSControllerFrom read; all cache callbacks and NewCache are the production closures returned by (*ControlPlane).dnsControllerOption(); only bestDialerChooser and dnsForwarderFactory are replaced (in-tree test seams) so no network is needed",
 		"reload = CloneDnsCache -> new generation (own core, tracker, routing program, DnsController) -> map cleared -> replayDnsReloadCache -> old controller closed; reload-reuse = the staged same-port sequence of cmd/run.go with an unchanged dns section: clone -> prepared generation -> old generation keeps serving -> clear map + replay -> ReuseDNSControllerFrom(old); two generations writing the shared map at the same time are not driven",
 		"operations are issued from one goroutine; the only concurrency explored is dae's own bpf-update worker running late (verifYield points dns-bpf-update-task, dns-bpf-update-refresh); two request handlers racing on one cache key are not explored",
